@@ -23,6 +23,8 @@ pub enum Obs {
     Member(usize),
     /// the edge between merge and take (C19 through merge): Up messages only
     Mid,
+    /// what the probe itself sends up (its disposal)
+    ProbeUp,
 }
 
 #[derive(Clone, Debug)]
@@ -70,10 +72,12 @@ impl Rec {
     }
 }
 
-fn probe_sink<T: Repr + Send + Sync + 'static>(rec: &Arc<Rec>, pulls: bool) -> Arc<Sink<T>> {
+/// `dispose_at`: the sink sends Terminate up from inside the handler of its k-th datum (1-based)
+fn probe_sink<T: Repr + Send + Sync + 'static>(rec: &Arc<Rec>, pulls: bool, dispose_at: Option<usize>) -> Arc<Sink<T>> {
     let rec = Arc::clone(rec);
     let tb: Arc<Mutex<Option<Arc<Source<T>>>>> = Arc::new(Mutex::new(None));
     let over = Arc::new(AtomicBool::new(false));
+    let n_data = Arc::new(std::sync::atomic::AtomicUsize::new(0));
     Arc::new(
         (move |message: Message<T, Never>| {
             let pull = |tb: &Arc<Mutex<Option<Arc<Source<T>>>>>| {
@@ -95,6 +99,16 @@ fn probe_sink<T: Repr + Send + Sync + 'static>(rec: &Arc<Rec>, pulls: bool) -> A
                 Message::Data(d) => {
                     rec.log(Obs::Probe, Kind::Data, d.repr(), true);
                     yield_here("probe:data-in");
+                    let nth = n_data.fetch_add(1, Ordering::SeqCst) + 1;
+                    if dispose_at == Some(nth) && !over.swap(true, Ordering::SeqCst) {
+                        // a conformant sink: it has received no terminal, and it sends its own once
+                        let t = tb.lock().unwrap().clone();
+                        if let Some(t) = t {
+                            rec.log(Obs::ProbeUp, Kind::Terminate, Val::none(), true);
+                            t(Message::Terminate);
+                            rec.log(Obs::ProbeUp, Kind::Terminate, Val::none(), false);
+                        }
+                    }
                     pull(&tb);
                     yield_here("probe:data-out");
                     rec.log(Obs::Probe, Kind::Data, d.repr(), false);
@@ -184,6 +198,8 @@ pub enum Shape {
     TakeDirect(usize),
     /// take(n) over merge!
     TakeMerge(usize),
+    /// combine!(merge!(a, b), c): one slot of combine is fed from two threads
+    CombineOverMerge,
 }
 
 #[derive(Clone, Debug)]
@@ -194,18 +210,24 @@ pub struct Scenario {
     pub fail: Option<usize>,
     pub own_greet: bool,
     pub probe_pulls: bool,
+    /// C19 only: the sink disposes from inside the handler of its k-th datum
+    pub dispose_at: Option<usize>,
 }
 
 impl Scenario {
     pub fn describe(&self) -> String {
         format!(
-            "{:?} threads={} data={:?} fail={:?} greet={} sink={}",
+            "{:?} threads={} data={:?} fail={:?} greet={} sink={}{}",
             self.shape,
             self.data.len(),
             self.data,
             self.fail,
             if self.own_greet { "own-thread" } else { "subscribing-thread" },
-            if self.probe_pulls { "pulls" } else { "passive" }
+            if self.probe_pulls { "pulls" } else { "passive" },
+            match self.dispose_at {
+                Some(k) => format!(" disposes-in-datum-{}", k),
+                None => String::new(),
+            }
         )
     }
 }
@@ -355,21 +377,27 @@ pub fn run_one(scn: &Scenario, strategy: Strategy) -> Outcome {
         Shape::Merge => {
             let srcs: Vec<Src<V>> = members.iter().map(|m| m.source()).collect();
             let out: Src<V> = Arc::new(callbag::merge(srcs.into_boxed_slice()));
-            out(Message::Handshake(probe_sink::<V>(&rec, scn.probe_pulls)));
+            out(Message::Handshake(probe_sink::<V>(&rec, scn.probe_pulls, scn.dispose_at)));
         },
         Shape::Combine => {
             if k == 2 {
                 let out: Src<(V, V)> = Arc::new(callbag::combine!(members[0].source(), members[1].source()));
-                out(Message::Handshake(probe_sink::<(V, V)>(&rec, scn.probe_pulls)));
+                out(Message::Handshake(probe_sink::<(V, V)>(&rec, scn.probe_pulls, None)));
             } else {
                 let out: Src<(V, V, V)> =
                     Arc::new(callbag::combine!(members[0].source(), members[1].source(), members[2].source()));
-                out(Message::Handshake(probe_sink::<(V, V, V)>(&rec, scn.probe_pulls)));
+                out(Message::Handshake(probe_sink::<(V, V, V)>(&rec, scn.probe_pulls, None)));
             }
+        },
+        Shape::CombineOverMerge => {
+            let srcs: Vec<Src<V>> = vec![members[0].source(), members[1].source()];
+            let merged: Src<V> = Arc::new(callbag::merge(srcs.into_boxed_slice()));
+            let out: Src<(V, V)> = Arc::new(callbag::combine!(merged, members[2].source()));
+            out(Message::Handshake(probe_sink::<(V, V)>(&rec, scn.probe_pulls, None)));
         },
         Shape::TakeDirect(n) => {
             let out: Src<V> = Arc::new(callbag::take(*n)(members[0].source()));
-            out(Message::Handshake(probe_sink::<V>(&rec, scn.probe_pulls)));
+            out(Message::Handshake(probe_sink::<V>(&rec, scn.probe_pulls, scn.dispose_at)));
             // all delivering threads share the one sink handle
             for t in 1..k {
                 sched.enable(t + 1);
@@ -379,7 +407,7 @@ pub fn run_one(scn: &Scenario, strategy: Strategy) -> Outcome {
             let srcs: Vec<Src<V>> = members.iter().map(|m| m.source()).collect();
             let merged: Src<V> = Arc::new(callbag::merge(srcs.into_boxed_slice()));
             let out: Src<V> = Arc::new(callbag::take(*n)(mid_tap(merged)));
-            out(Message::Handshake(probe_sink::<V>(&rec, scn.probe_pulls)));
+            out(Message::Handshake(probe_sink::<V>(&rec, scn.probe_pulls, scn.dispose_at)));
         },
     }));
     if r.is_err() {
@@ -451,6 +479,37 @@ pub fn judge(scn: &Scenario, o: &Outcome) -> Option<(&'static str, String)> {
     let terms: Vec<&&REv> = probe.iter().filter(|e| e.kind.is_terminal()).collect();
     let k = scn.data.len();
     match &scn.shape {
+        Shape::CombineOverMerge => {
+            if greets != 1 {
+                return Some(("sink-not-greeted-exactly-once", format!("sink was greeted {} times", greets)));
+            }
+            for e in &data {
+                if e.val.n != 2 {
+                    return Some(("incomplete-tuple", format!("tuple {}", e.val.show())));
+                }
+                let first_ok = o.sent[0].contains(&e.val.a[0]) || o.sent[1].contains(&e.val.a[0]);
+                if !first_ok || !o.sent[2].contains(&e.val.a[1]) {
+                    return Some(("tuple-with-value-never-sent", format!("tuple {} holds a value that was never sent to that slot", e.val.show())));
+                }
+            }
+            if terms.len() != 1 {
+                return Some((
+                    "terminal-not-delivered-exactly-once",
+                    format!("all member threads have finished; the sink received {} terminals", terms.len()),
+                ));
+            }
+            let t = terms[0];
+            if t.kind != Kind::Terminate {
+                return Some(("completion-of-wrong-kind", format!("{:?}", t.kind)));
+            }
+            if t.inflight != 0 {
+                return Some((
+                    "completion-during-data-delivery",
+                    format!("Terminate entered while {} Data deliveries were still in progress", t.inflight),
+                ));
+            }
+            None
+        },
         Shape::Merge | Shape::Combine => {
             if greets != 1 {
                 return Some(("sink-not-greeted-exactly-once", format!("sink was greeted {} times", greets)));
@@ -529,6 +588,34 @@ pub fn judge(scn: &Scenario, o: &Outcome) -> Option<(&'static str, String)> {
                 return Some(("take-over-delivered", format!("take({}) delivered {} data", n, data.len())));
             }
             let scripted: usize = scn.data.iter().sum();
+            let disposed = o.evs.iter().any(|e| e.obs == Obs::ProbeUp && e.enter);
+            let up_obs = if matches!(scn.shape, Shape::TakeDirect(_)) { Obs::Member(0) } else { Obs::Mid };
+            let ups = o.evs.iter().filter(|e| e.obs == up_obs && e.kind.is_terminal()).count();
+            if disposed {
+                // the sink left by itself (from inside one of its data handlers, while other threads
+                // were delivering): take's upstream is told to stop exactly once - by the relay of
+                // that disposal or by take's own completion, whichever comes first, never both -
+                // and the sink is sent at most one terminal (a completion that races with the
+                // disposal cannot be taken back; two of them would be a double termination)
+                if terms.len() > 1 {
+                    return Some(("sink-terminated-twice", format!("sink disposed and received {} terminals", terms.len())));
+                }
+                if ups != 1 {
+                    return Some((
+                        "upstream-not-terminated-exactly-once",
+                        format!("take({}): the sink disposed in its datum #{}; upstream received {} terminals", n, scn.dispose_at.unwrap_or(0), ups),
+                    ));
+                }
+                if let Shape::TakeMerge(_) = scn.shape {
+                    for m in 0..k {
+                        let c = o.evs.iter().filter(|e| e.obs == Obs::Member(m) && e.kind.is_terminal()).count();
+                        if c > 1 {
+                            return Some(("member-terminated-twice", format!("member {} received {} terminals", m, c)));
+                        }
+                    }
+                }
+                return None;
+            }
             if scripted >= *n && data.len() != *n {
                 return Some(("take-under-delivered", format!("take({}) delivered {} of {} sent", n, data.len(), total)));
             }
@@ -536,8 +623,6 @@ pub fn judge(scn: &Scenario, o: &Outcome) -> Option<(&'static str, String)> {
                 return Some(("sink-not-terminated-exactly-once", format!("sink received {} terminals", terms.len())));
             }
             // upstream: take's direct upstream is told to stop exactly once iff take completed by count
-            let up_obs = if matches!(scn.shape, Shape::TakeDirect(_)) { Obs::Member(0) } else { Obs::Mid };
-            let ups = o.evs.iter().filter(|e| e.obs == up_obs && e.kind.is_terminal()).count();
             let want = if scripted >= *n { 1 } else { 0 };
             if ups != want {
                 return Some((
@@ -566,18 +651,37 @@ pub fn scenarios(prop: &str) -> Vec<Scenario> {
                 for fail in [None, Some(0), Some(data.len() - 1)] {
                     for own_greet in [false, true] {
                         for probe_pulls in [false, true] {
-                            v.push(Scenario { shape: shape.clone(), data: data.clone(), fail, own_greet, probe_pulls });
+                            v.push(Scenario { shape: shape.clone(), data: data.clone(), fail, own_greet, probe_pulls, dispose_at: None });
                         }
                     }
                 }
+            }
+        }
+        // (appended after the original list so that recorded scenario indices stay valid)
+        // one slot of combine! fed by two threads through merge!
+        for data in [vec![1, 1, 1], vec![2, 1, 1], vec![1, 1, 2], vec![2, 2, 2]] {
+            for probe_pulls in [false, true] {
+                v.push(Scenario { shape: Shape::CombineOverMerge, data: data.clone(), fail: None, own_greet: false, probe_pulls, dispose_at: None });
             }
         }
     } else {
         for n in 1..=3usize {
             for data in [vec![1, 1], vec![2, 1], vec![2, 2], vec![1, 1, 1], vec![2, 2, 1], vec![3, 3]] {
                 for probe_pulls in [false, true] {
-                    v.push(Scenario { shape: Shape::TakeDirect(n), data: data.clone(), fail: None, own_greet: false, probe_pulls });
-                    v.push(Scenario { shape: Shape::TakeMerge(n), data: data.clone(), fail: None, own_greet: false, probe_pulls });
+                    v.push(Scenario { shape: Shape::TakeDirect(n), data: data.clone(), fail: None, own_greet: false, probe_pulls, dispose_at: None });
+                    v.push(Scenario { shape: Shape::TakeMerge(n), data: data.clone(), fail: None, own_greet: false, probe_pulls, dispose_at: None });
+                }
+            }
+        }
+        // (appended) the sink leaves by itself, from inside one of its data handlers, before the
+        // count is reached, while the other threads keep delivering
+        for n in 2..=3usize {
+            for k in 1..n {
+                for data in [vec![2, 1], vec![2, 2], vec![1, 1, 1], vec![2, 2, 1], vec![3, 3]] {
+                    for probe_pulls in [false, true] {
+                        v.push(Scenario { shape: Shape::TakeDirect(n), data: data.clone(), fail: None, own_greet: false, probe_pulls, dispose_at: Some(k) });
+                        v.push(Scenario { shape: Shape::TakeMerge(n), data: data.clone(), fail: None, own_greet: false, probe_pulls, dispose_at: Some(k) });
+                    }
                 }
             }
         }
